@@ -57,12 +57,15 @@ CLAIMS = {
         note="Assumes CHA resolution of workspace traits, closures may-run at construction site, calls through stored dyn Fn fields not followed.",
         ref="DESIGN.md §5 C05"),
     "C06": dict(
-        technique="MIR edge-dominance of constraint gates + abort-condition analysis of the exhaustive scan",
+        technique="MIR edge-dominance of constraint gates, abort-condition analysis, finite-ordering evaluation of the time-window / capacity verdicts, canonical-expression recurrences",
         text="Soundness gate only: a reported success was evaluated by the complete constraint set on exactly that move on activity and route level, the "
              "multi-job shadow route is refreshed between sub-insertions, and in exhaustive mode the scan over legs/places/time windows is aborted only by "
-             "a `stopped` violation while every leg from the skip index on is folded. Not decided: completeness (fails only if no feasible position exists) "
-             "and agreement with an independent simulation — they rest on each feature's value-level `stopped` flag and O(1) summaries.",
-        note="Shares rules C01-G1/G2/G3 and C05-I1.",
+             "a `stopped` violation while every leg from the skip index on is folded. The two constraints the property names are decided at value level by finite "
+             "evaluation: time windows (admitted iff no arrival after its latest time; the scan-aborting verdict only on target-independent facts — the completeness "
+             "clause w.r.t. time windows) and capacity (each demand part against its own load summary; abort only for static delivery; can_fit iff load <= capacity); the "
+             "O(1) summaries they read have their defining recurrences (schedule, latest arrival, waiting, running load, past/future maximum) and legs are queried in "
+             "travel direction. Not decided: agreement with an independent simulation for the remaining features; optimality of the returned position.",
+        note="Shares rules C01-G1/G2/G3/W1/C1/O3/O4/D1, C05-I1/R1-R4, C02-O1.",
         ref="DESIGN.md §5 C06"),
     "C07": dict(
         technique="MIR loop-guard must-pass analysis (entry + per-iteration), finite-ordering evaluation of termination predicates, poll inventory",
@@ -102,7 +105,8 @@ CLAIMS = {
         technique="serde attribute symmetry table from a syn AST scan + JSON-kind distinguishability argument for untagged enums + record-field liveness",
         text="Narrow clauses: every type reachable from the Problem/Matrix/Solution documents derives both Serialize and Deserialize, carries no one-sided "
              "attribute, renames agree on both sides, skip_serializing_if is only Option::is_none on Option fields; for every untagged enum no later "
-             "variant serialises to JSON an earlier variant accepts; tagged enums have unique tags; every CSV import column is consumed. Not decided: float "
+             "variant serialises to JSON an earlier variant accepts; tagged enums have unique tags; every CSV import column is consumed and CSV rows are grouped "
+             "by id (never by adjacency); the initial-solution reader walks every tour, stop and activity of the document (no dropping adapter). Not decided: float "
              "text round trip, activity matching when a solution is re-read, faithfulness of CSV values.",
         note="serde derive semantics for the listed attributes are trusted.",
         ref="DESIGN.md §5 C11"),
@@ -134,7 +138,9 @@ CLAIMS = {
         technique="effect reachability over the CHA call graph + exhaustive finite-ordering evaluation of the reducer + closure capture typing",
         text="Purity of insertion evaluation under the deterministic configuration (no RNG/clock/IO/interior-mutability/thread-local/logger effect "
              "reachable; exhaustive leg mode proved by evaluating get_sample_data over the enum variant), parallel closures are shared Fn closures "
-             "without mutable captures, the reducer is evaluated exhaustively over {Success,Failure}^2 x {<,=,>} and evaluate_all wiring is checked. "
+             "without mutable captures, the reducer is evaluated exhaustively over {Success,Failure}^2 x {<,=,>} and evaluate_all wiring is checked; the "
+             "fold step never drops the best-so-far (every exit returns the alternative or select_insertion(alternative, candidate)); the cost order used by the "
+             "reducer is a total order (lexicographic total_cmp); the CPU count that sizes populations does not depend on the pool layout (non-interference). "
              "One known finding (multi-job permutation sampling). Not decided: order-insensitivity of cost pruning, validity of full runs per layout.",
         note="Calls through stored Arc<dyn Fn> feature closures are not followed; ties between equal costs may resolve differently.",
         ref="DESIGN.md §5 C15"),
@@ -151,7 +157,8 @@ CLAIMS = {
         technique="kind (position vs node) flow analysis, edge-dominance gates, per-iteration must-pass pairing, comparator def-use",
         text="Narrow clauses: LKH never confuses path positions with node ids and rebuilds from the given start node; only paths validated by try_path "
              "(length gate + visited check) are returned and only for strictly positive gain; DBSCAN marks points Clustered before every push and skips "
-             "clustered points; k-medoids returns assignments to the nearest medoid. Not decided: termination/optimality numerics, density-reachability, "
+             "clustered points; clusters are seeded and extended by core points only (neighbour count >= min_points, others noise / border, decided on the "
+             "normalised comparison and its edges); k-medoids returns assignments to the nearest medoid. Not decided: termination/optimality numerics, density-reachability, "
              "`no core point left unclustered`, convergence.",
         note="One genuine defect repaired (start node, fix: a2d54db).",
         ref="DESIGN.md §5 C17"),
